@@ -29,10 +29,22 @@ class StepLimit(Exception):
     pass
 
 
+def nsol(env, g):
+    """number of solutions of this activation of goal g: a behaviour is a constant, or a tuple giving the number for
+    the first, second, ... activation (the last entry repeats) - a goal need not behave the same every time it is called"""
+    b = env[g][0]
+    if isinstance(b, tuple):
+        acts = env.setdefault('#activations', {})
+        i = acts.get(g, 0)
+        acts[g] = i + 1
+        return b[min(i, len(b) - 1)]
+    return b
+
+
 def solve(E, env, stack, k):
     t = E[0]
     if t in ('var', 'call'):
-        n, cut = env[E[1]]
+        n, cut = nsol(env, E[1]), env[E[1]][1]
         for i in range(n):
             stack.append((E[1], i))
             try:
@@ -106,7 +118,7 @@ def execute(code, env, stack, out):
         if t == 'CB':
             solve(s[1], env, stack, lambda: out.append(('Y', tuple(stack))))
         elif t == 'Foreach':
-            n, _ = env[s[1]]
+            n = nsol(env, s[1])
             for i in range(n):
                 stack.append((s[1], i))
                 try:
@@ -133,6 +145,7 @@ def execute(code, env, stack, out):
 
 def run_src(E, env):
     out, st = [], []
+    env.pop('#activations', None)
     try:
         solve(E, env, st, lambda: out.append(('Y', tuple(st))))
         out.append('END')
@@ -145,6 +158,7 @@ def run_src(E, env):
 
 def run_tgt(code, env):
     out, st = [], []
+    env.pop('#activations', None)
     try:
         execute(code, env, st, out)
         out.append('END')
